@@ -100,6 +100,21 @@ func (g *Gen) sortOfTypeName(name string, pkg *types.Package) (string, types.Typ
 			return name, nil, nil
 		}
 	}
+	// ghost containers: set[K], map[K]V over basic sorts
+	if strings.HasPrefix(name, "set[") && strings.HasSuffix(name, "]") {
+		if ks, _, err := g.sortOfTypeName(name[4:len(name)-1], pkg); err == nil {
+			return "(Array " + ks + " Bool)", nil, nil
+		}
+	}
+	if strings.HasPrefix(name, "map[") {
+		if i := strings.Index(name, "]"); i > 0 {
+			ks, _, err1 := g.sortOfTypeName(name[4:i], pkg)
+			vs, _, err2 := g.sortOfTypeName(name[i+1:], pkg)
+			if err1 == nil && err2 == nil {
+				return "(Array " + ks + " " + vs + ")", nil, nil
+			}
+		}
+	}
 	if strings.HasPrefix(name, "*") {
 		_, t, err := g.sortOfTypeName(name[1:], pkg)
 		if err == nil && t != nil {
@@ -1036,7 +1051,17 @@ func (g *Gen) evalCall(x *CExpr, env *Env) (Val, error) {
 		if err := evalArgs(); err != nil {
 			return Val{}, err
 		}
-		return Val{T: fmt.Sprintf("(fresh$ %s)", args[0].T), S: "Bool"}, nil
+		// a freshly allocated object: allocated after everything that existed so far (allocation clock)
+		if g.vc.clock == "" {
+			g.vc.clock = "0"
+		}
+		t := fmt.Sprintf("(and (fresh$ %s) (> (allocid$ %s) %s))", args[0].T, args[0].T, g.vc.clock)
+		if !strings.Contains(args[0].T, "!b") {
+			e := g.vc.freshConst("epoch", "Int")
+			g.vc.lines = append(g.vc.lines, fmt.Sprintf("(assert (and (> %s %s) (> %s (allocid$ %s))))", e, g.vc.clock, e, args[0].T))
+			g.vc.clock = e
+		}
+		return Val{T: t, S: "Bool"}, nil
 	case "ite":
 		if err := evalArgs(); err != nil {
 			return Val{}, err
